@@ -49,9 +49,14 @@ PROPS = {
 
 
 def make_specs(prop, tier, base_seed, nruns):
+    from . import directed as _directed
+
     cfg = PROPS[prop]
     specs = []
-    directed = cfg.get("directed", [])
+    directed = []
+    if prop in _directed.DIRECTED:
+        fn = _directed.DIRECTED[prop]
+        directed = [{"ops": ops} for ops in (fn(tier) if fn.__code__.co_argcount else fn())]
     for i in range(nruns):
         spec = {"prop": prop, "tier": tier, "index": i, "run_seed": derive_seed(base_seed, prop, i),
                 "mode": "gen", "engine": cfg["engine"], "timeout": cfg.get("timeout", 300)}
@@ -92,6 +97,8 @@ def execute_store(spec, scratch, t0):
     rng = random.Random(spec["run_seed"])
     replay = spec.get("mode") == "replay"
     swarm = spec["swarm"] if replay and spec.get("swarm") else draw_swarm(rng, prop, spec["tier"])
+    if spec.get("directed") and not replay:
+        swarm["snapshots"] = True
     Node._ids[0] = 0
     sim = seams.new_sim(random.Random(swarm["sched_seed"]), swarm["policy"], scratch,
                         replay=spec.get("schedule") if replay else None, param="p1w0")
@@ -104,7 +111,8 @@ def execute_store(spec, scratch, t0):
         if replay:
             run.run(spec["ops"])
         elif spec.get("directed"):
-            run.run(spec["directed"]["ops"])
+            run.run(spec["directed"]["ops"], stop_on_violation=not cfg.get("continue_after_violation"))
+            run.stat("directed-corner-workloads")
         elif cfg.get("special") == "c13":
             from . import c13
             c13.run(run, rng, cfg, spec["tier"])
